@@ -71,7 +71,20 @@ def make_func(name, sig, body, env):
 
 
 def oracle(case):
-    """Declarative acceptance per the property statements (C01 + C04)."""
+    """Declarative acceptance per the property statements (C01 + C04): the
+    route itself and, for application-level middlewares, the built-in catch-all
+    route (no URL binding but its own '_ignored')."""
+    reasons = oracle_route(case)
+    if case.get('level', 'app') == 'app':
+        null = dict(case)
+        null['url'] = ['_ignored']
+        null['endpoint'] = {'pos': ['request', '_application', '_route', '_dispatch_state']}
+        null['render'] = {'pos': ['context']}
+        reasons += ['null-route:' + r for r in oracle_route(null)]
+    return reasons
+
+
+def oracle_route(case):
     url = set(case.get('url', []))
     res = set(case.get('resources', []))
     mws = case.get('mws', [])
@@ -190,9 +203,14 @@ def build(case):
     resources = dict((r, sentinel('resource', r)) for r in case.get('resources', []))
     pattern = '/x' + ''.join('/<%s>' % u for u in case.get('url', []))
     path = '/x' + ''.join('/v%d' % i for i, u in enumerate(case.get('url', [])))
-    route = Route(pattern, endpoint, render)
-    app = Application([route], resources=resources, middlewares=mw_objs,
-                      error_handler=ErrorHandler(reraise_uncaught=True))
+    if case.get('level', 'app') == 'app':
+        route = Route(pattern, endpoint, render)
+        app = Application([route], resources=resources, middlewares=mw_objs,
+                          error_handler=ErrorHandler(reraise_uncaught=True))
+    else:
+        route = Route(pattern, endpoint, render, middlewares=mw_objs)
+        app = Application([route], resources=resources,
+                          error_handler=ErrorHandler(reraise_uncaught=True))
     return app, path, calls, sent
 
 
